@@ -75,7 +75,7 @@ func c17GUIDs(r *mon.Run) []refguid.GUID {
 }
 
 func checkC17(r *mon.Run) {
-	r.Rule = "GUIDs: zero, all-ones, 128 one-bit, 128 all-but-one-bit, single-byte values per position, leading-zero nibbles per field, asymmetric, well-known, PRNG values; strings: empty, ASCII, Latin-1, BMP incl. U+FEFF/U+FFFE neighbourhood and zero-low-byte units, non-BMP, long; distinct = distinct values outside the 8 GUIDs / 2 strings the repository suite uses"
+	r.Rule = "hostile GUID texts first (canonical shape with non-hex characters, other shapes; the returned value must format as its own fields say); GUIDs: zero, all-ones, 128 one-bit, 128 all-but-one-bit, single-byte values per position, leading-zero nibbles per field, asymmetric, well-known, PRNG values; strings: empty, ASCII, Latin-1, BMP incl. U+FEFF/U+FFFE neighbourhood and zero-low-byte units, non-BMP, long (up to 70 001 code units, around 2^15 and 2^16); unterminated input incl. the terminator cut by one byte must be an error; distinct = distinct values outside the 8 GUIDs / 2 strings the repository suite uses"
 	r.Assume("oracle: internal/refguid (no fmt verbs shared with the library) and unicode/utf16 from the standard library")
 	suiteGUIDs := map[string]bool{}
 	gs := c17GUIDs(r)
